@@ -33,6 +33,7 @@ struct FatalOracle { };   // the case cannot continue meaningfully (e.g. block o
 struct CfgInfo {
 	const char *name;
 	size_t page, sb, slabsz; int nb; bool aligned, poison;
+	bool pool_detects_poison;      // slab_pool::has_poisoning (must agree with what the policy offers)
 	size_t hdr_frame, hdr_slab;
 };
 
@@ -280,11 +281,29 @@ struct MapPlain : virtual PolicyState {
 	void unmap(uintptr_t b, size_t len) { calls++; g.do_unmap(b, len); }
 };
 struct Poisoning : virtual PolicyState {
+	static constexpr bool wants_poison = true;
 	void poison(void *p, size_t n) { calls++; g.do_poison(p, n); }
 	void unpoison(void *p, size_t n) { calls++; g.do_unpoison(p, n); }
 	void unpoison_expand(void *p, size_t n) { calls++; g.do_unpoison_expand(p, n); }
 };
-struct NoPoisoning { };
+// the three hooks OVERLOADED (void * and uintptr_t flavours): &Policy::poison is ambiguous, the call expression is not
+struct PoisoningOverloaded : virtual PolicyState {
+	static constexpr bool wants_poison = true;
+	void poison(void *p, size_t n) { calls++; g.do_poison(p, n); }
+	void poison(uintptr_t p, size_t n) { poison((void *)p, n); }
+	void unpoison(void *p, size_t n) { calls++; g.do_unpoison(p, n); }
+	void unpoison(uintptr_t p, size_t n) { unpoison((void *)p, n); }
+	void unpoison_expand(void *p, size_t n) { calls++; g.do_unpoison_expand(p, n); }
+	void unpoison_expand(uintptr_t p, size_t n) { unpoison_expand((void *)p, n); }
+};
+// the three hooks as member TEMPLATES
+struct PoisoningTemplated : virtual PolicyState {
+	static constexpr bool wants_poison = true;
+	template<class T> void poison(T p, size_t n) { calls++; g.do_poison((void *)p, n); }
+	template<class T> void unpoison(T p, size_t n) { calls++; g.do_unpoison((void *)p, n); }
+	template<class T> void unpoison_expand(T p, size_t n) { calls++; g.do_unpoison_expand((void *)p, n); }
+};
+struct NoPoisoning { static constexpr bool wants_poison = false; };
 struct NoConsts { };
 template<size_t PG, size_t SBS, size_t SLB, int NB>
 struct Consts {
@@ -321,14 +340,18 @@ template<class M, class P, class C> struct Policy : M, P, C { };
 	X(p64k_s64k_b12_un, Policy<MapPlain,   NoPoisoning, Consts<0x10000, 0x10000, 0x10000, 12>>) \
 	X(u32_p4k_s64k_b10_ap, Policy<MapAligned, Poisoning, ConstsT<uint32_t, 0x1000, 0x10000, 0x10000, 10>>) \
 	X(int_p4k_s112k_b13_up, Policy<MapPlain,  Poisoning, ConstsT<int, 0x1000, 0x20000, 0x1C000, 13>>) \
-	X(u32_p64k_s64k_b12_un, Policy<MapPlain,  NoPoisoning, ConstsT<unsigned, 0x10000, 0x10000, 0x10000, 12>>)
+	X(u32_p64k_s64k_b12_un, Policy<MapPlain,  NoPoisoning, ConstsT<unsigned, 0x10000, 0x10000, 0x10000, 12>>) \
+	X(p4k_s1m_b13_ap,   Policy<MapAligned, Poisoning,   Consts<0x1000, 0x100000, 0x100000, 13>>) \
+	X(ovl_def_ap,       Policy<MapAligned, PoisoningOverloaded, NoConsts>) \
+	X(tpl_p4k_s64k_b10_up, Policy<MapPlain, PoisoningTemplated, Consts<0x1000, 0x10000, 0x10000, 10>>)
 
 template<class Pol> CfgInfo make_info(const char *name) {
 	using Pool = frg::slab_pool<Pol, Mutex>;
 	CfgInfo c;
 	c.name = name; c.page = Pool::page_size; c.sb = Pool::sb_size; c.slabsz = Pool::slabsize; c.nb = Pool::num_buckets;
 	c.aligned = frg::is_detected_v<frg::policy_map_aligned_t, Pol>;
-	c.poison = Pool::has_poisoning;
+	c.poison = Pol::wants_poison;          // what the POLICY offers; the model is run with this
+	c.pool_detects_poison = Pool::has_poisoning;
 	c.hdr_frame = sizeof(typename Pool::frame); c.hdr_slab = sizeof(typename Pool::slab_frame);
 	return c;
 }
@@ -649,6 +672,36 @@ struct Runner {
 		printf("= churn used=%zu\n", pool.numUsedPages());
 	}
 
+	// fill <n> <count>: <count> blocks of <n> bytes become live (policy calls made, not printed); drain: free them, last first
+	std::vector<void *> bulk;
+	void op_fill(size_t n, uint64_t count) {
+		uint64_t h = 0;
+		for(uint64_t i = 0; i < count; i++) {
+			g.begin_op(); g.fail_next = false; g.skip_units = 0; g.quiet = true;
+			void *p = pool.allocate(n);
+			bool mapped_now = g.op_maps > g.op_failed_maps;
+			g.quiet = false; g.run_open = false;
+			if(!p) { vh::oracle("mapfail", "allocate(%zu) returned null during fill although no map() failed", n); break; }
+			born((uintptr_t)p, n, mapped_now);
+			auto it = live.find((uintptr_t)p); if(it != live.end()) { it->second.data.clear(); it->second.det.clear(); }
+			bulk.push_back(p);
+			h = (h * 31 + g.v((uintptr_t)p)) & 0xffffffffull;
+		}
+		check_locks("allocate (fill)");
+		printf("= fill %zu %llu used=%zu\n", bulk.size(), (ull)h, pool.numUsedPages());
+	}
+	void op_drain() {
+		while(!bulk.empty()) {
+			void *p = bulk.back(); bulk.pop_back();
+			g.begin_op(); g.quiet = true; g.cur_free_p = (uintptr_t)p;
+			pool.free(p);
+			g.quiet = false; g.run_open = false; g.cur_free_p = 0;
+			died((uintptr_t)p);
+		}
+		check_locks("free (drain)");
+		printf("= drain used=%zu\n", pool.numUsedPages());
+	}
+
 	void op_free(size_t sl, bool sized, size_t n) {
 		void *p = slot(sl);
 		g.begin_op(); g.fail_next = false; g.cur_free_p = (uintptr_t)p;
@@ -697,7 +750,9 @@ struct Runner {
 			if(g.op_maps || g.op_unmaps) vh::oracle("realloc", "in-place realloc called map/unmap");
 			if(q == p) {
 				Blk &b = live[(uintptr_t)p];
-				b.n = n; b.data.resize(n, 0); b.det.resize(n, 0);
+				b.n = n;
+				if(n <= ((size_t)64 << 20) && (b.data.size() || old.n == 0 || old.data.size())) { b.data.resize(n, 0); b.det.resize(n, 0); }
+				else { b.data.clear(); b.det.clear(); }      // huge blocks: contents not tracked
 				check_block((uintptr_t)p, b, false);
 				// still live: must not have been pushed on its slab's free list
 				if(b.small) {
@@ -736,6 +791,8 @@ struct Runner {
 			opno++;
 			if(o == "a" && t.size() >= 4) op_alloc(vh::u64(t[1]), vh::u64(t[2]), t[3]);
 			else if(o == "churn" && t.size() >= 3) op_churn(vh::u64(t[1]), vh::u64(t[2]));
+			else if(o == "fill" && t.size() >= 3) op_fill(vh::u64(t[1]), vh::u64(t[2]));
+			else if(o == "drain") op_drain();
 			else if(o == "f" && t.size() >= 2) op_free(vh::u64(t[1]), false, 0);
 			else if(o == "d" && t.size() >= 3) op_free(vh::u64(t[1]), true, vh::u64(t[2]));
 			else if(o == "r" && t.size() >= 4) op_realloc(vh::u64(t[1]), vh::u64(t[2]), t[3]);
@@ -802,6 +859,9 @@ struct Runner {
 
 template<class Pol> void run_cfg(const CfgInfo &ci, const vh::Lines &ls) {
 	g.reset(&ci);
+	if(ci.poison != ci.pool_detects_poison)
+		vh::oracle("poison", "the policy %s poison/unpoison/unpoison_expand hooks but slab_pool::has_poisoning is %s",
+			ci.poison ? "has" : "has no", ci.pool_detects_poison ? "true" : "false");
 	auto r = std::make_unique<Runner<Pol>>(ci);
 	try { r->run(ls); }
 	catch(FatalOracle &) { g.flush_run(); printf("fatal\n"); }
